@@ -33,12 +33,15 @@ CFGS = {
               ("c14-b", dict(BadMode='"count-range"', MaxStmts=3, MaxRows=2, MaxFlush=1, Tables='{"t1"}', Vals="{1, 2}"), None),
               # statements on three-level trees and on rows at the 400-byte limit: they succeed in the specification
               ("c14-x", dict(MaxStmts=5, MaxRows=3, MaxFlush=0, Tables='{"t1"}', Vals="{1}", Wheres="{0, 1}", Ops='{"create", "insert", "update", "delete"}'), 8000),
+              # tables created between the statements of another table (the catalog's own tree grows and splits meanwhile)
+              ("c14-ddl-x", dict(MaxStmts=5, MaxRows=2, MaxFlush=0, Tables='{"t1", "t2"}', Vals="{1}", Wheres="{0}", Ops='{"create", "insert"}'), 8000),
               ("c14-y-x", dict(MaxStmts=4, MaxRows=2, MaxFlush=0, Tables='{"t1"}', Vals="{1, 8}", Wheres="{0, 8}", Ops='{"create", "insert", "update", "delete"}'), 8000),
               # rows with a NULL INT column and WHERE clauses that fail on them (`a >= k`): the statement must fail before touching any row
               ("c14-n", dict(BadMode='"type-size"', MaxStmts=5, MaxRows=1, MaxFlush=0, Tables='{"t1"}', Vals="{1, 9}", Wheres="{0, 1, 101}", Ops='{"create", "insert", "update", "delete"}'), None)],
     "thorough": [("c14-a", dict(BadMode='"type-size"', MaxStmts=4, MaxRows=3, MaxFlush=1, Tables='{"t1", "t2"}', Vals="{1}"), 80000),
                  ("c14-b", dict(BadMode='"count-range"', MaxStmts=4, MaxRows=3, MaxFlush=1, Tables='{"t1"}', Vals="{1, 2}"), 60000),
                  ("c14-c", dict(BadMode='"all"', MaxStmts=3, MaxRows=4, MaxFlush=0, Tables='{"t1"}', Vals="{1}"), 60000),
+                 ("c14-ddl-x", dict(MaxStmts=6, MaxRows=3, MaxFlush=0, Tables='{"t1", "t2", "t3"}', Vals="{1}", Wheres="{0}", Ops='{"create", "insert"}'), 60000),
                  ("c14-n", dict(EmitMod=14, BadMode='"type-size"', MaxStmts=6, MaxRows=2, MaxFlush=1, Tables='{"t1"}', Vals="{1, 2, 9}", Wheres="{0, 1, 101, 102}"), 80000)],
 }
 
